@@ -221,7 +221,7 @@ def fault_grid(rng):
                 out.append(case([("fa", fa), ("fb", "other\n" if rng.below(2) else None)], ["fa"], lines))
     return out
 
-SUB_PATS = ["a", "^a", "a$", "^", "$", "x*", "a*", "o", "(o)(o)", "(a)|(b)", "[ab]+", "é", "é*", ".", "\\<f", "o\\>", "^a*", "b*$", "(f)(o*)", "a|aa", "(a*)(b*)", "日", "  *", "\\.", "\\/", "a\\\n", "\\\n", "o*\\\n", "^\\\n"]
+SUB_PATS = ["a", "^a", "a$", "^", "$", "x*", "a*", "o", "(o)(o)", "(a)|(b)", "[ab]+", "é", "é*", ".", "\\<f", "o\\>", "^a*", "b*$", "(f)(o*)", "a|aa", "(a*)(b*)", "日", "  *", "\\.", "\\/", "a\\\n", "\\\n", "o*\\\n", "^\\\n", "\\<", "\\>", "\\<o*"]
 SUB_REPS = ["X", "", "-", "[\\0]", "\\1", "\\2\\1", "<\\1|\\2>", "\\\\", "é", "\\n", "&", "\\9", "x\\0y\\0", "\\\n", "x\\\ny", "\\\n\\\n", "\\0\\\n"]
 SUB_LINES = ["aaa", "ééa", "foo bar", "abab", "", "a", "baac", "日本語", "  x  y", "a.b/c", "foo", "aXa", "oo", "fooo foo"]
 
@@ -245,7 +245,7 @@ def c14_cases(rng, count):
 # ---- C16: edits keep the text valid UTF-8
 U8_CHARS = ["é", "©", "¡", "¿", "ß", "中", "文", "€", "日", "𝄞", "ل", "\u0301", "a", "b", "x", " ", "Z", "1", "."]
 U8_PATS = ["[^é ]", "[^a-z]", "[¡-¿]", "©+", "©", ".", "[^ ]", "é*", "(é)*x", "[é中]", "[^中]", "x*", "$", "^", "\\<", "\\>", "[[:alpha:]]", "[^[:alpha:]]",
-           "[^a]", "¿*", "[^©]", "..", ".$", "^.", "[^x]*", "(.)(.)", "a|é", "[é-ÿ]", "[^é-ÿ]", "ß", "[ -~]", "[^ -~]", "€", "[^€]", "𝄞", "[^𝄞]", "\\(.\\)"]
+           "[^a]", "¿*", "[^©]", "aé*", "xé+", "bß?", "é中*", ".é*", "aé{2}", "a©*", "[«»]", "[^ë]", "..", ".$", "^.", "[^x]*", "(.)(.)", "a|é", "[é-ÿ]", "[^é-ÿ]", "ß", "[ -~]", "[^ -~]", "€", "[^€]", "𝄞", "[^𝄞]", "\\(.\\)"]
 U8_REPS = ["-", "&&", "é", "\\0\\0", "", "<&>", "\\1", "中"]
 def u8_line(rng):
     return "".join(rng.choice(U8_CHARS) for _ in range(rng.below(12)))
@@ -310,7 +310,9 @@ def c01_cases(rng, count):
     return out
 
 GLOB_PATS = ["m", "a", "^$", "o", "x", "1", "."]
-GLOB_CMDS = ["d", "s/m/M/", "s/o/0/g", "pu a", "a\\", "-1d", "+1d", "-2,-1d|+1", "d|d", ".,+1d", "+1,+2d", "k a", "p", "s/$/!/", "-1,.d", "1d", "$d", "pu a|-1d", "g/o/d", "g/1/s/m/W/", "v/m/d", "y a|pu a", "+1s/./Q/", "+1d|-1", "m0", "m$", "co0", "co.", "t$", "m+1", "-1m$", "m0|+1", "+1m0", "+1m0|+2", "co0|d", "i\\", "c\\", "s/^/>/|-1d", "g/./s/$/;/", "1,2d", "$m0"]
+GLOB_CMDS = ["d", "s/m/M/", "s/o/0/g", "pu a", "a\\", "-1d", "+1d", "-2,-1d|+1", "d|d", ".,+1d", "+1,+2d", "k a", "p", "s/$/!/", "-1,.d", "1d", "$d", "pu a|-1d", "g/o/d", "g/1/s/m/W/", "v/m/d", "y a|pu a", "+1s/./Q/", "+1d|-1", "m0", "m$", "co0", "co.", "t$", "m+1", "-1m$", "m0|+1", "+1m0", "+1m0|+2", "co0|d", "i\\", "c\\", "s/^/>/|-1d", "g/./s/$/;/", "1,2d", "$m0",
+             # nested globals with a range of their own: the inner marks must not disturb the outer ones
+             ".,+1g/./s/$/x/", "-1,.g/m/s/^/</", "1,$g/o/s/o/0/", ".,$v/z/s/$/v/", ".,+2g/1/s/$/#/", "1,.g/./s/^/-/", "-1,+1g/a/s/a/A/"]
 
 def c15_growth_cases(rng, count):
     """globals whose commands add lines while the buffer crosses the 512-line capacity step of the line arrays"""
